@@ -57,7 +57,7 @@ Definition dec_pol (v : value) : option pol :=
   match v with
   | VL [VL a; VL b; VL c] =>
       match dec_aops a, dec_aops b, dec_aops c with
-      | Some a', Some b', Some c' => Some {| on_headers := fun _ => a'; on_ready := b'; on_finished := c'; hdr_after := false |}
+      | Some a', Some b', Some c' => Some {| on_headers := fun _ _ => a'; on_ready := b'; on_finished := c'; hdr_after := false |}
       | _, _, _ => None
       end
   | _ => None
